@@ -99,6 +99,25 @@ WHY = {
  "v2_multiset-215-5-17": "equivalent: a loop of zero iterations",
  "v2_diff_read-311-7-15": "equivalent: a hunk read with an after-context test has a non-empty path",
  "lib_diff_read-273-21-16": "equivalent: the path handed to an empty-object leaf is a fresh slice already",
+ "lib_path-29-0-58": "equivalent: dead branch of prependMetadataMerge",
+ "lib_multiset-163-5-20": "equivalent: dead base case of the v1 multiset patch",
+ "lib_set-182-5-20": "equivalent: dead base case of the v1 set patch",
+ "v2_options-124-1-8": "outside the properties: JSON (un)marshalling of Option values",
+ "v2_options-113-20-2": "outside the properties: JSON (un)marshalling of Option values",
+ "v2_list-436-4-11": "equivalent: at i == len(l) the appended slice is empty",
+ "v2_diff_read-345-13-9": "equivalent for the properties: two ops coalesced at the root path give a hunk with two additions, which Patch rejects in either order",
+ "v2_set-196-7-24": "equivalent: dead base case of jsonSet.patch",
+ "lib_diff_write-154-7-22": "outside the properties: v1 RenderMerge of a diff that is not a merge diff (C18 quantifies over merge-mode diffs; the refusal is not part of it)",
+ "v2_set-56-12-13": "equivalent: only the keys of that map are used",
+ "v2_object-228-0-51": "reported by C12 (the repair b819fb7 undone; C12 was not among the six properties the sweep ran for v2/object.go)",
+ "lib_object-127-12-10": "equivalent: only the keys of that map are used",
+ "lib_object-104-12-14": "equivalent: only the keys of that map are used",
+ "lib_object-222-7-49": "outside the properties: a hunk with several removed values addressed to an object is never emitted (v1 twin of v2_object-221-7-49)",
+ "main-359-13-14": "equivalent: the flag is ignored on the error path",
+ "main-387-13-13": "equivalent: the flag is ignored on the error path",
+ "v2_set-196-5-42": "equivalent: dead base case of jsonSet.patch",
+ "v2_object-228-16-44": "outside the properties: differs only for a hand-written native merge hunk that adds a one-member object onto an object; jd's merge diffs and its merge patch reader recurse into objects and never produce one",
+ "v2_list-414-14-4": "equivalent: inside a switch, break leaves the switch and the loop goes on as with continue (looking at it showed that C03 never changed the OUTER line of two-line context; change-before-2 / change-after-2 added and confirmed with a hand-made mutant that skips the outer line)",
  "v2_multiset-172-5-20": "equivalent: dead base case of jsonMultiset.patch",
  "lib_multiset-163-7-24": "equivalent: dead base case of the v1 multiset patch",
  "lib_multiset-163-5-42": "equivalent: dead base case of the v1 multiset patch",
